@@ -1,13 +1,15 @@
 #!/bin/bash
 # re-run every stored seeded change against the current checks (quick tier): the property it was written for plus any other
-# property recorded in its meta.json as catching it; one line each
+# property recorded in its meta.json as catching it; one line each.  $1 = number of changes run side by side (default 4).
 cd /verif
-for d in seeded/*/; do
-  n=$(basename $d); pid=${n%%-*}
+one() {
+  d=$1; n=$(basename $d); pid=${n%%-*}
   also=$(/venv/bin/python -c "
 import json,sys
 m=json.load(open('$d/meta.json'))
 print(','.join(k for k in m.get('checks',{}) if k!='$pid'))" 2>/dev/null)
-  if [ -n "$also" ]; then tools/seeded.py $d $pid --also $also --name $n --no-store 2>&1 | tail -1
-  else tools/seeded.py $d $pid --name $n --no-store 2>&1 | tail -1; fi
-done
+  if [ -n "$also" ]; then VERIF_PROCS=4 tools/seeded.py $d $pid --also $also --name $n --no-store 2>&1 | tail -1
+  else VERIF_PROCS=4 tools/seeded.py $d $pid --name $n --no-store 2>&1 | tail -1; fi
+}
+export -f one
+ls -d seeded/*/ | xargs -P ${1:-4} -I{} bash -c 'one {}'
